@@ -102,6 +102,37 @@ T = {
     "C15-H": ("C15", "ClusterGraph.add_edge registers both cliques before the sepset check", "a rejected edge between disjoint cliques with a clique not yet in the graph", ["C15"], False),
     "C16-G": ("C16", "compat to_numpy returns the array itself: the samplers' weight correction is written into the model's CPD", "a parentless node whose CPD column does not sum to exactly one and a direct sampling-engine call", ["C16", "C07"], False),
     "C16-H": ("C16", "DiscreteFactor.sum copies the addend only when it needs extra axes: axis alignment permutes the caller's factor", "factor addition where the addend covers the left operand's variables in another order with unequal cardinalities", ["C04"], False),
+    # ---- round 5 (session 3): G/H for the nine properties without a round 4, I/J for the other six; C06..C16 -G/-H of round 4 were
+    # re-created by sub-agents from their recorded one-line descriptions (the original files had never been committed)
+    "C01-G": ("C01", "VariableElimination.query merges evidence slicing and index building with evidence.get(var): a state literally named None reads as 'not observed'", "hard evidence on a state named None with elimination_order='greedy'", ["C01", "C03"], False),
+    "C01-H": ("C01", "_virtual_evidence rebuilds the network from its edge list instead of copying it: isolated nodes are dropped", "virtual evidence on a network with an isolated node", ["C01"], False),
+    "C02-G": ("C02", "clique-tree edge weight -|sepset| + 1e-4 * (sepset table size)", "two cliques sharing two variables of >= 101 states next to a clique sharing one of them", ["C02"], False),
+    "C02-H": ("C02", "BeliefPropagation.query flattened: virtual-evidence entries written into the caller's evidence dict", "a caller-owned evidence dict used with virtual evidence and reused afterwards", ["C16"], False),
+    "C03-G": ("C03", "_get_working_factors resolves the evidence state to a number and hands the number to reduce(), which reads it as a name first", "hard evidence on a variable with integer state names that are not the identity coding, classic elimination path", ["C03", "C01"], False),
+    "C03-H": ("C03", "MAP decoding takes the first cell that is np.isclose to the maximum", "unnormalised tables below 1e-8 (Markov network on a small scale) or a runner-up within 1e-5 relative", ["C03"], False),
+    "C04-G": ("C04", "__eq__ works on the right operand's own cardinality array: axis alignment swaps it in place", "== between factors with the same scope in another axis order and unequal cardinalities", ["C04"], False),
+    "C04-H": ("C04", "divide(): nan_to_num(nan=0, posinf=inf) clamps -inf to the most negative float", "a negative dividend cell over a zero divisor cell", ["C04"], False),
+    "C09-G": ("C09", "NET reader normalises a CPD whose columns are off by more than the validity tolerance", "a column that loses more than 0.01 to four-decimal rounding (> 200 states with a heavy sub-rounding tail)", ["C09"], False),
+    "C11-G": ("C11", "hill climbing keeps a running best initialised to epsilon and compares with >", "a best legal move that improves the score by exactly epsilon (integer-valued caller-written score)", ["C11"], False),
+    "C11-H": ("C11", "TreeSearch label-encodes every column once and hands the codes to the edge-weight function", "a caller-written weight that reads the values, on columns whose states are not coded 0..k-1", ["C11"], False),
+    "C12-G": ("C12", "orientation rule 3 iterates a dict collider -> one parent pair", "a sink with several unshielded collider pairs and an edge compelled by rule 3 through the overwritten pair (6 nodes, 13 edges; order dependent)", ["C12"], False),
+    "C12-H": ("C12", "PDAG.to_dag: 'if not sink' instead of 'is None'", "a vertex with a falsy name (0, empty string) chosen as the sink", ["C12"], False),
+    "C14-G": ("C14", "to_junction_tree links the cliques of each variable only consecutively before the spanning tree", ">= 4 cliques in a particular arrangement and clique enumeration order (0.3-0.7 % of random connected models)", ["C14", "C02"], False),
+    "C14-H": ("C14", "moralize() re-uses get_immoralities(), which sorts parent pairs", "two non-adjacent parents whose names are of unorderable types", ["C14"], False),
+    "C17-G": ("C17", "forward pass swaps the interface potential in place (clique * new / old)", "an interface potential that is exactly zero at slice t-1 for a state reachable at slice t (0/0 = 0 keeps it impossible)", ["C17"], False),
+    "C17-H": ("C17", "interface marginal returned with name-sorted scope, transposed with the inverse permutation", ">= 3 interface variables whose junction-tree scope order is a 3-cycle of the sorted order (hash-seed dependent)", ["C17"], False),
+    "C06-I": ("C06", "fit_update reads the previous CPD's parent order via get_evidence() (reversed)", "a previous CPD with >= 2 parents listed in exactly descending name order", ["C06"], False),
+    "C06-J": ("C06", "EM E-step indexes CPD values by the estimator's state order", "init_cpds over a latent and an observed variable whose state order differs from the estimator's", ["C06"], False),
+    "C07-I": ("C07", "likelihood weighting reads the constant weight of a fully observed family positionally in get_evidence() order", "an evidence node with >= 2 parents, all observed, non-palindromic parent states", ["C07"], False),
+    "C07-J": ("C07", "_return_samples maps numbers to names through a numpy array without dtype=object", "a variable with state names of mixed Python types", ["C07"], False),
+    "C10-I": ("C10", "BDeu adjustment counts cells in both a missing row and a missing column twice", "a declared-only child state and an unobserved parent configuration in one family", ["C10"], False),
+    "C10-J": ("C10", "structure_score forwards only keyword arguments named in the score's signature: state_names is dropped", "the metric wrapper called with state_names that declare an unobserved state", ["C10"], False),
+    "C13-I": ("C13", "CausalInference keeps one inference engine per back-end", "one CausalInference object, a bp question, a CPD of the live network replaced, another bp question", ["C13"], False),
+    "C13-J": ("C13", "front-door test walks directed paths with a cutoff that is one edge too small", "a directed path from X to Y that avoids Z and visits every node outside Z", ["C13"], False),
+    "C15-I": ("C15", "ClusterGraph.add_edge converts its endpoints to tuples after JunctionTree.add_edge has run its guards on the caller's objects", "cliques named by frozensets", ["C15"], False),
+    "C15-J": ("C15", "BayesianNetwork.do no longer materialises its argument", "the nodes given as a one-shot iterator", ["C15"], False),
+    "C16-I": ("C16", "per-engine reduce-map cache keyed by node only", "one sampling engine used for forward/rejection and likelihood-weighted sampling on a node with >= 2 parents", ["C07"], False),
+    "C16-J": ("C16", "_return_samples skips the number-to-name map when names and numbers are the same set", "integer state names that are a non-identity permutation of 0..k-1", ["C07", "C16"], False),
     "C10-G": ("C10", "K2 local score drops the adjustment for parent configurations removed by reindex=False", "K2, a child with >= 3 states and an unobserved parent configuration", ["C10"], False),
     "C10-H": ("C10", "state space of a categorical column taken from the dtype's categories", "no state_names, categorical dtype with a category occurring in no row", ["C10"], False),
     "C17-B": ("C17", "initialize_initial_state pairs parent cardinalities with reversed parent names", "a CPD given for one slice with >= 2 same-slice parents of different cardinalities", ["C17"], True),
